@@ -76,9 +76,12 @@ func (t *c16Transport) Dial(_ context.Context, raddr ma.Multiaddr, p peer.ID) (t
 	return nil, errC16Dial
 }
 
-// TCP over an IP literal only
+// TCP over an IP literal (with or without a zone) only
 func (t *c16Transport) CanDial(a ma.Multiaddr) bool {
 	ps := a.Protocols()
+	if len(ps) == 3 && ps[0].Code == ma.P_IP6ZONE && ps[1].Code == ma.P_IP6 {
+		ps = ps[1:]
+	}
 	return len(ps) == 2 && (ps[0].Code == ma.P_IP4 || ps[0].Code == ma.P_IP6) && ps[1].Code == ma.P_TCP
 }
 func (t *c16Transport) Listen(ma.Multiaddr) (transport.Listener, error) {
@@ -228,26 +231,216 @@ func (s *c16Stream) clientClose() {
 // ---- addresses --------------------------------------------------------------
 
 // IP identities.  Entries with the same id are the same IP for the purpose of
-// "the address's IP differs from the IP the request came from".
+// "the address's IP differs from the IP the request came from": exact equality of
+// the IP address (an IPv4 address and its IPv4-mapped IPv6 spelling are one IP; a
+// zone in front of an IPv6 address is not part of the IP).  Nothing weaker - not
+// the /64, not the /48, not "all but the last bit" - makes two IPs the same.
+// The ids of the table are checked against the raw bytes of the multiaddr's IP
+// component (c16CheckIP), independently of manet.ToIP / net.IP.Equal.
 type c16IP struct {
-	s   string
-	v6  bool
-	id  int64
-	pub bool
+	s    string // IP literal
+	v6   bool   // spelled /ip6/...
+	zone string // "" or an /ip6zone/<zone> in front of the /ip6
+	id   int64
+	exp  int // 1: public by construction, 0: not public by construction, -1: whatever manet says
+	grp  int // neighbourhood: IPs that are close to one another without being equal
 }
 
 var c16IPs = []c16IP{
-	{"1.2.3.4", false, 1, true},
-	{"5.6.7.8", false, 2, true},
-	{"99.88.77.66", false, 3, true},
-	{"2600:1f18::5", true, 4, true},
-	{"2a00:1450::9", true, 5, true},
-	{"::ffff:1.2.3.4", true, 1, true}, // the same IP as 1.2.3.4 in its IPv4-in-IPv6 form
-	{"192.168.1.7", false, 11, false},
-	{"10.0.0.3", false, 12, false},
-	{"127.0.0.1", false, 13, false},
-	{"fd00::7", true, 14, false},
-	{"169.254.1.1", false, 15, false},
+	// neighbourhood 1: around 1.2.3.4
+	{"1.2.3.4", false, "", 1, 1, 1},
+	{"1.2.3.5", false, "", 21, 1, 1},          // differs from 1.2.3.4 in the last bit only
+	{"129.2.3.4", false, "", 22, 1, 1},        // differs from 1.2.3.4 in the first bit only
+	{"::ffff:1.2.3.4", true, "", 1, -1, 1},    // the same IP as 1.2.3.4 in its IPv4-in-IPv6 form
+	{"::ffff:1.2.3.5", true, "", 21, -1, 1},   // the same IP as 1.2.3.5
+	{"64:ff9b::102:304", true, "", 23, 1, 1},  // NAT64 form of 1.2.3.4: another IP
+	{"2002:102:304::1", true, "", 24, -1, 1},  // 6to4 form of 1.2.3.4: another IP
+	// neighbourhood 2: around 2600:1f18::5
+	{"2600:1f18::5", true, "", 4, 1, 2},
+	{"2600:1f18::4", true, "", 31, 1, 2},                    // same /64, last bit only
+	{"2600:1f18::aaaa:bbbb:cccc:dddd", true, "", 32, 1, 2},  // same /64, another interface id
+	{"2600:1f18::8000:0:0:5", true, "", 33, 1, 2},           // same /64, first bit of the interface id only
+	{"2600:1f18:0:1::5", true, "", 34, 1, 2},                // same /48 (and /63), another /64
+	{"2600:1f18:0:8000::5", true, "", 35, 1, 2},             // same /48, another /64
+	{"2600:1f18:1::5", true, "", 36, 1, 2},                  // same /32, another /48
+	{"3600:1f18::5", true, "", 37, 1, 2},                    // one high bit differs, still global unicast
+	{"a600:1f18::5", true, "", 38, -1, 2},                   // first bit only
+	{"2600:1f18::5", true, "eth0", 4, -1, 2},                // zone in front: the same IP as 2600:1f18::5
+	{"2600:1f18::4", true, "eth0", 31, -1, 2},
+	{"2600:1f18::aaaa:bbbb:cccc:dddd", true, "wlan1", 32, -1, 2},
+	// neighbourhood 3: around 2a00:1450::9
+	{"2a00:1450::9", true, "", 5, 1, 3},
+	{"2a00:1450::1:2:3:4", true, "", 41, 1, 3},    // same /64
+	{"2a00:1450:0:0:ffff::9", true, "", 42, 1, 3}, // same /64
+	{"2a00:1450:0:ff::9", true, "", 43, 1, 3},     // same /56
+	// far from everything
+	{"5.6.7.8", false, "", 2, 1, 0},
+	{"99.88.77.66", false, "", 3, 1, 0},
+	// not public
+	{"192.168.1.7", false, "", 11, 0, 0},
+	{"10.0.0.3", false, "", 12, 0, 0},
+	{"127.0.0.1", false, "", 13, 0, 0},
+	{"fd00::7", true, "", 14, 0, 0},
+	{"169.254.1.1", false, "", 15, 0, 0},
+}
+
+func (ip c16IP) prefix() string {
+	switch {
+	case ip.zone != "":
+		return "/ip6zone/" + ip.zone + "/ip6/" + ip.s
+	case ip.v6:
+		return "/ip6/" + ip.s
+	}
+	return "/ip4/" + ip.s
+}
+
+// indexes into c16IPs: public for sure / not public for sure / usable as the IP of a "usable" entry
+var c16PubSure, c16Priv, c16Usable []int
+
+func init() {
+	for k, ip := range c16IPs {
+		switch ip.exp {
+		case 1:
+			c16PubSure = append(c16PubSure, k)
+			c16Usable = append(c16Usable, k)
+		case 0:
+			c16Priv = append(c16Priv, k)
+		default:
+			c16Usable = append(c16Usable, k)
+		}
+	}
+}
+
+// the IP of a multiaddr as 16 bytes, read off the raw value of its first component
+// (a leading ip6zone skipped); ok = false if it does not start with an IP
+func c16CanonIP(m ma.Multiaddr) (ip [16]byte, plain4, zone, ok bool) {
+	for _, c := range m {
+		switch c.Protocol().Code {
+		case ma.P_IP6ZONE:
+			zone = true
+			continue
+		case ma.P_IP4:
+			b := c.RawValue()
+			if len(b) != 4 {
+				panic("verif: ip4 component without 4 bytes")
+			}
+			ip[10], ip[11] = 0xff, 0xff
+			copy(ip[12:], b)
+			return ip, true, zone, true
+		case ma.P_IP6:
+			b := c.RawValue()
+			if len(b) != 16 {
+				panic("verif: ip6 component without 16 bytes")
+			}
+			copy(ip[:], b)
+			return ip, false, zone, true
+		}
+		return ip, false, zone, false
+	}
+	return ip, false, zone, false
+}
+
+var (
+	c16CanonMu sync.Mutex
+	c16CanonID = map[[16]byte]int64{}
+	c16IDCanon = map[int64][16]byte{}
+)
+
+// the table's id of an address is the identity of its IP bytes: one id <-> one 16-byte value
+func c16CheckIP(m ma.Multiaddr, id int64) {
+	b, _, _, ok := c16CanonIP(m)
+	if !ok {
+		if id != 0 {
+			panic(fmt.Sprintf("verif: %s has no IP but IP id %d", m, id))
+		}
+		return
+	}
+	c16CanonMu.Lock()
+	defer c16CanonMu.Unlock()
+	if old, seen := c16CanonID[b]; seen && old != id {
+		panic(fmt.Sprintf("verif: %s: one IP with the two ids %d and %d", m, old, id))
+	}
+	if old, seen := c16IDCanon[id]; seen && old != b {
+		panic(fmt.Sprintf("verif: %s: IP id %d stands for two different IPs", m, id))
+	}
+	c16CanonID[b], c16IDCanon[id] = id, b
+}
+
+// how the IP to dial relates to the observed one (coverage only)
+func c16Relation(obs, dial ma.Multiaddr) []string {
+	a, a4, az, ok1 := c16CanonIP(obs)
+	b, b4, bz, ok2 := c16CanonIP(dial)
+	if !ok1 || !ok2 {
+		return []string{"no_ip_on_one_side"}
+	}
+	var l []string
+	if az {
+		l = append(l, "zone_in_observed")
+	}
+	if bz {
+		l = append(l, "zone_in_dialed")
+	}
+	mapped := func(x [16]byte) bool {
+		for i := 0; i < 10; i++ {
+			if x[i] != 0 {
+				return false
+			}
+		}
+		return x[10] == 0xff && x[11] == 0xff
+	}
+	if a == b {
+		if a4 != b4 {
+			return append(l, "equal_ipv4_vs_its_ipv4_mapped_ipv6")
+		}
+		return append(l, "equal")
+	}
+	ndiff, first, last := 0, -1, -1
+	for i := 0; i < 128; i++ {
+		if (a[i/8]^b[i/8])>>(7-uint(i%8))&1 == 1 {
+			ndiff++
+			if first < 0 {
+				first = i
+			}
+			last = i
+		}
+	}
+	am, bm := mapped(a), mapped(b)
+	switch {
+	case am != bm:
+		l = append(l, "different_family")
+	case am:
+		l = append(l, "ipv4_differs")
+		if ndiff == 1 && last == 127 {
+			l = append(l, "ipv4_last_bit_only")
+		}
+		if ndiff == 1 && first == 96 {
+			l = append(l, "ipv4_first_bit_only")
+		}
+		if a4 != b4 {
+			l = append(l, "ipv4_vs_other_ipv4_mapped_ipv6")
+		}
+	default:
+		switch {
+		case first >= 64:
+			l = append(l, "ipv6_same_64_other_host")
+			if ndiff == 1 && last == 127 {
+				l = append(l, "ipv6_last_bit_only")
+			}
+			if ndiff == 1 && first == 64 {
+				l = append(l, "ipv6_first_interface_id_bit_only")
+			}
+		case first >= 48:
+			l = append(l, "ipv6_same_48_other_64")
+		case first >= 32:
+			l = append(l, "ipv6_same_32_other_48")
+		default:
+			l = append(l, "ipv6_other_prefix")
+			if ndiff == 1 {
+				l = append(l, "ipv6_one_high_bit_only")
+			}
+		}
+	}
+	return l
 }
 
 type c16Addr struct {
@@ -266,6 +459,8 @@ type c16World struct {
 	peers  []peer.ID
 	obs    []ma.Multiaddr
 	obsIP  []int64
+	obsGrp []int // neighbourhood of the observed IP (0: none)
+	cur    int64 // the peer whose request is being generated
 	addrs  []*c16Addr
 	byStr  map[string]*c16Addr
 	byPeer map[peer.ID]int64
@@ -279,12 +474,21 @@ func (w *c16World) mkAddr(r *verifh.Rand, p peer.ID) *c16Addr {
 	a := &c16Addr{aid: int64(len(w.addrs) + 1)}
 	var s string
 	expectCls := int64(-1)
-	ipOf := func(k int) (string, string) {
-		ip := c16IPs[k]
-		if ip.v6 {
-			return "/ip6/" + ip.s, ""
+	ipOf := func(k int) (string, string) { return c16IPs[k].prefix(), "" }
+	// an IP out of `from`: mostly one close to (or equal to) the IP the request comes from
+	pick := func(from []int) int {
+		if g := w.obsGrp[w.cur]; g != 0 && r.Chance(3, 5) {
+			var near []int
+			for _, k := range from {
+				if c16IPs[k].grp == g {
+					near = append(near, k)
+				}
+			}
+			if len(near) > 0 {
+				return near[r.Intn(len(near))]
+			}
 		}
-		return "/ip4/" + ip.s, ""
+		return from[r.Intn(len(from))]
 	}
 	kind := r.Intn(16)
 	if w.pressure && !r.Chance(1, 6) {
@@ -292,27 +496,27 @@ func (w *c16World) mkAddr(r *verifh.Rand, p peer.ID) *c16Addr {
 	}
 	switch {
 	case kind < 6: // public IP, TCP: usable
-		k := r.Intn(6)
+		k := pick(c16Usable)
 		pre, _ := ipOf(k)
 		s = fmt.Sprintf("%s/tcp/%d", pre, 10000+w.port)
 		a.ip = c16IPs[k].id
-		if k != 5 {
+		if c16IPs[k].exp == 1 {
 			expectCls = 7
 		}
 	case kind < 9: // private / loopback / link-local IP, TCP
-		k := 6 + r.Intn(5)
+		k := c16Priv[r.Intn(len(c16Priv))]
 		pre, _ := ipOf(k)
 		s = fmt.Sprintf("%s/tcp/%d", pre, 10000+w.port)
 		a.ip = c16IPs[k].id
 		expectCls = 5
 	case kind < 11: // public IP, but no transport for it
-		k := r.Intn(5)
+		k := pick(c16PubSure)
 		pre, _ := ipOf(k)
 		s = fmt.Sprintf("%s/udp/%d/quic-v1", pre, 10000+w.port)
 		a.ip = c16IPs[k].id
 		expectCls = 3
 	case kind < 12: // public, TCP, refused by the dialer's connection gater
-		k := r.Intn(5)
+		k := pick(c16PubSure)
 		pre, _ := ipOf(k)
 		s = pre + "/tcp/6666"
 		if _, dup := w.byStr[s]; dup {
@@ -342,6 +546,7 @@ func (w *c16World) mkAddr(r *verifh.Rand, p peer.ID) *c16Addr {
 	if err != nil {
 		panic(err)
 	}
+	c16CheckIP(m, a.ip)
 	a.bytes, a.str = m.Bytes(), m.String()
 	a.cls = 1
 	if manet.IsPublicAddr(m) {
@@ -446,23 +651,27 @@ func c16Session(t *testing.T, out *verifh.Out, r *verifh.Rand, steps int) {
 		p := test.RandPeerIDFatal(t)
 		w.peers = append(w.peers, p)
 		w.byPeer[p] = int64(i)
-		k := r.Intn(5)
+		// the connection's remote address: any IP of the table that is not private for sure,
+		// in any spelling (plain, IPv4-mapped IPv6, with a zone), over TCP or QUIC
+		k := c16Usable[r.Intn(len(c16Usable))]
 		var obs string
 		switch {
 		case r.Chance(1, 12):
 			obs = "/memory/1234"
 			w.obsIP = append(w.obsIP, 0)
-		case c16IPs[k].v6:
-			obs = "/ip6/" + c16IPs[k].s + "/tcp/4001"
-			w.obsIP = append(w.obsIP, c16IPs[k].id)
+			w.obsGrp = append(w.obsGrp, 0)
 		case r.Bool():
-			obs = "/ip4/" + c16IPs[k].s + "/udp/4001/quic-v1"
+			obs = c16IPs[k].prefix() + "/udp/4001/quic-v1"
 			w.obsIP = append(w.obsIP, c16IPs[k].id)
+			w.obsGrp = append(w.obsGrp, c16IPs[k].grp)
 		default:
-			obs = "/ip4/" + c16IPs[k].s + "/tcp/4001"
+			obs = c16IPs[k].prefix() + "/tcp/4001"
 			w.obsIP = append(w.obsIP, c16IPs[k].id)
+			w.obsGrp = append(w.obsGrp, c16IPs[k].grp)
 		}
-		w.obs = append(w.obs, ma.StringCast(obs))
+		om := ma.StringCast(obs)
+		c16CheckIP(om, w.obsIP[i])
+		w.obs = append(w.obs, om)
 	}
 
 	start := time.Now()
@@ -761,6 +970,7 @@ func (w *c16World) closeStream(open map[int64]*c16Open, order *[]int64, sid int6
 
 func (w *c16World) mkRequest(r *verifh.Rand, pi int64) []*c16Addr {
 	p := w.peers[pi]
+	w.cur = pi
 	n := r.Intn(6)
 	long := r.Chance(1, 12)
 	if long {
@@ -795,6 +1005,13 @@ func (w *c16World) mkRequest(r *verifh.Rand, pi int64) []*c16Addr {
 				w.out.Cover("session.request.first_usable_same_ip")
 			} else {
 				w.out.Cover("session.request.first_usable_foreign_ip")
+			}
+			if i < maxPeerAddresses {
+				if m, err := ma.NewMultiaddrBytes(a.bytes); err == nil {
+					for _, rel := range c16Relation(w.obs[pi], m) {
+						w.out.Cover("session.ip_pair(observed,dialed)." + rel)
+					}
+				}
 			}
 			break
 		}
